@@ -13,6 +13,8 @@ import typing
 import fiddle as fdl
 
 LOG: list = []          # invocation log: Rec objects in call order
+FAIL = {'at': None, 'make': None, 'seen': None, 'raised': None}   # crash point: index of the failing invocation
+HOOK = {'fn': None}     # called at the start of every (non-failing) invocation
 _serial = itertools.count()
 
 
@@ -62,6 +64,13 @@ class Rec:
   """Result of a recording callable."""
 
   def __init__(self, fn_name, slots, var, kw):
+    if FAIL['at'] is not None and len(LOG) == FAIL['at']:
+      FAIL['seen'] = (fn_name, slots, var, kw)
+      exc = FAIL['make']()
+      FAIL['raised'] = exc
+      raise exc
+    if HOOK['fn'] is not None:
+      HOOK['fn'](fn_name)
     self.fn_name = fn_name
     self.slots = slots      # list of (param name, value)
     self.var = var          # tuple
